@@ -1,6 +1,44 @@
-(* C01 - statements only; proofs in the *Facts.v files. (grows) *)
-From Sbdf Require Import Va VaFacts PrimFacts ObjFacts.
-Theorem C01_value_array_wire : forall swp v, wf_va v -> byte_ok (vty v) ->
-  wspec (va_write swp v) (Ok tt) (enc_va swp v) /\ rspec (va_read swp None) (enc_va swp v) v.
-Proof. intros swp v W B. split; [exact (wspec_va swp v W)|exact (rspec_va swp v W B)]. Qed.
-Print Assumptions C01_value_array_wire.
+(* C01 — write-then-read round trip preserves the whole table.
+   Proved here for the slice part of a file (any number of slices, any columns, any encodings,
+   any properties): what the writers emit is read back as the same content, and then
+   end-of-table.  The table-metadata section (sbdf_tm_write / sbdf_tm_read with its
+   sort/fold/re-expansion) is covered by the correspondence run only: see DESIGN.md.
+   Statements only. *)
+From Sbdf Require Import File PrimFacts SevenBit ObjFacts VaFacts SliceFacts FileFacts.
+
+(* writer and reader meet in enc_*: for every budget that suffices the writer produces bs, and the
+   reader maps bs (followed by anything) back to the value *)
+Theorem C01_value_array_roundtrip : forall swp v budget tail, wf_va v -> byte_ok (vty v) -> zlen (enc_va swp v) <= budget ->
+  exists bs, wrun (va_write swp v) budget = (SBDF_OK, bs) /\ va_read swp None (bs ++ tail) = Ok (v, tail).
+Proof.
+  intros swp v budget tail W B Hb. exists (enc_va swp v). pose proof (BaseFacts.zlen_nonneg (enc_va swp v)). split.
+  - destruct (wspec_run _ _ _ budget (wspec_va swp v W) ltac:(lia)) as [H1 _]. now apply H1.
+  - destruct (rspec_va swp v W B) as [E _]. apply E.
+Qed.
+Print Assumptions C01_value_array_roundtrip.
+
+Theorem C01_slices_roundtrip : forall swp sls ncols budget fuel tail,
+  slices_ok ncols sls -> (length sls <= length fuel)%nat -> zlen (enc_slices swp sls) <= budget ->
+  let w := wfor (map (fun cols => {| tscols := map Some cols; tsowned := false |}) sls) (ts_write swp) ;;w ts_write_end in
+  exists bs, wrun w budget = (SBDF_OK, bs) /\
+             read_slices swp None fuel ncols None (bs ++ tail) = (map owned_ts sls, SBDF_TABLEEND, enc_end ++ tail).
+Proof.
+  intros swp sls ncols budget fuel tail W Hf Hb w. exists (enc_slices swp sls). split.
+  - pose proof (BaseFacts.zlen_nonneg (enc_slices swp sls)).
+    destruct (wspec_run _ _ _ budget (wspec_slices swp sls ncols W) ltac:(lia)) as [H1 _]. now apply H1.
+  - now apply read_slices_exact.
+Qed.
+Print Assumptions C01_slices_roundtrip.
+
+(* what "the same content" is: every cell bit for bit (C02) *)
+Theorem C01_cells : forall o, obj_ok o ->
+  (exists v, va_create_plain o = Ok v /\ va_get_values v = Ok o) /\
+  (exists v, va_create_rle o = Ok v /\ va_get_values v = Ok o) /\
+  (exists v, va_create_bit o = Ok v /\ va_get_values v = Ok (bools_of o)).
+Proof.
+  intros o H. split; [|split].
+  - destruct (va_plain_lossless o H) as (v & A & B & _). eauto.
+  - destruct (va_rle_lossless o H) as (v & A & B & _). eauto.
+  - destruct (va_bit_lossless o H) as (v & A & B & _). eauto.
+Qed.
+Print Assumptions C01_cells.
